@@ -97,5 +97,9 @@ Files(L, layout) ==
                                [name |-> "a.mal", toks |-> partA] >>
     [] layout = "subdir" -> << [name |-> "main.mal", toks |-> d[1] \o Include("sub/a.mal") \o partB],
                                [name |-> "sub/a.mal", toks |-> partA] >>
-Layouts == {"single", "star", "chain", "middle", "repeat", "subdir"}
+    \* two DIFFERENT files reached through the same relative name from different directories
+    [] layout = "samename" -> << [name |-> "main.mal", toks |-> d[1] \o Include("x/p.mal") \o Include("y/p.mal")],
+                                 [name |-> "x/p.mal", toks |-> Include("a.mal")], [name |-> "x/a.mal", toks |-> partA],
+                                 [name |-> "y/p.mal", toks |-> Include("a.mal")], [name |-> "y/a.mal", toks |-> partB] >>
+Layouts == {"single", "star", "chain", "middle", "repeat", "subdir", "samename"}
 =============================================================================
